@@ -6,6 +6,7 @@ import (
 
 	fpgo "github.com/TeaEntityLab/fpGo/v2"
 	"github.com/TeaEntityLab/fpGo/v2/zzverif/vsched"
+	"verifharness/lib"
 	"verifharness/lib/e1"
 )
 
@@ -199,13 +200,128 @@ func twoCallsScenario(random bool, pool int, bound int) *vsched.Scenario {
 	}
 }
 
+// payloadScenario: PMap is generic in the element type: the payload table as a []interface{} (nil, typed nil
+// pointers, zero values ...) and a []*int with nils: f is applied exactly once to every element, also to
+// the nil ones, and the result is Map(f, list).
+func payloadScenario(random bool, bound int) *vsched.Scenario {
+	fam := "pmap-payload"
+	pay := []interface{}{nil, (*int)(nil), lib.P1, 0, ""}
+	var applied, result []string
+	var ptrApplied int
+	var ptrResult []int
+	return &vsched.Scenario{
+		Name:  fmt.Sprintf("pmap/payload/random=%v", random),
+		Bound: bound,
+		Body: func() {
+			vsched.PoolRetain = 0
+			applied, result, ptrApplied, ptrResult = nil, nil, 0, nil
+			opt := &fpgo.PMapOption{FixedPool: 2, RandomOrder: random}
+			res := fpgo.PMap(func(v interface{}) string {
+				vsched.Event("apply", lib.Show(v))
+				return "f(" + lib.Show(v) + ")"
+			}, opt, pay...)
+			result = append(result, res...)
+			ptrResult = fpgo.PMap(func(p *int) int {
+				vsched.Event("apply-ptr", p == nil)
+				if p == nil {
+					return -1
+				}
+				return *p
+			}, opt, lib.P1, nil, lib.P2, nil)
+		},
+		Check: func(r *vsched.Result) []vsched.Failure {
+			fs := e1.Basic("C16", fam, r, nil)
+			if len(fs) > 0 {
+				return fs
+			}
+			var want, got []string
+			for _, v := range pay {
+				want = append(want, "f("+lib.Show(v)+")")
+			}
+			for _, e := range r.Events {
+				if e.Kind == "apply" {
+					applied = append(applied, "f("+e.Args[0].(string)+")")
+				}
+				if e.Kind == "apply-ptr" {
+					ptrApplied++
+				}
+			}
+			got = append(got, result...)
+			pr := append([]int{}, ptrResult...)
+			if random {
+				sort.Strings(got)
+				sort.Strings(want)
+				sort.Ints(pr)
+			}
+			sort.Strings(applied)
+			ws := append([]string{}, want...)
+			sort.Strings(ws)
+			if fmt.Sprint(applied) != fmt.Sprint(ws) {
+				fs = append(fs, e1.Fail("C16|"+fam+"|applications", "f was applied to %v, the list is %v", applied, ws))
+			}
+			if fmt.Sprint(got) != fmt.Sprint(want) {
+				fs = append(fs, e1.Fail("C16|"+fam+"|result", "PMap over the payload table returned %v, Map gives %v", got, want))
+			}
+			wp := []int{5, -1, 5, -1}
+			if random {
+				sort.Ints(wp)
+			}
+			if ptrApplied != 4 || fmt.Sprint(pr) != fmt.Sprint(wp) {
+				fs = append(fs, e1.Fail("C16|"+fam+"|result", "PMap over [P1 nil P2 nil]: f applied %d times, result %v, Map gives %v", ptrApplied, pr, wp))
+			}
+			return fs
+		},
+	}
+}
+
+// longListScenario: a list far longer than the pool and than small buffers (3 000 elements; 70 000 in the thorough tier), one schedule.
+func longListScenario(random bool, n int) *vsched.Scenario {
+	fam := "pmap-long-list"
+	var sum, count int
+	return &vsched.Scenario{
+		Name:      fmt.Sprintf("pmap/long-list-%d/random=%v", n, random),
+		Bound:     0,
+		FirstOnly: true,
+		MaxSteps:  20000000,
+		Body: func() {
+			vsched.PoolRetain = 0
+			list := make([]int, n)
+			for i := range list {
+				list[i] = i
+			}
+			res := fpgo.PMap(func(v int) int { return v + 1 }, &fpgo.PMapOption{FixedPool: 3, RandomOrder: random}, list...)
+			sum, count = 0, len(res)
+			for i, v := range res {
+				sum += v
+				if !random && v != i+1 {
+					sum = -1
+					break
+				}
+			}
+		},
+		Check: func(r *vsched.Result) []vsched.Failure {
+			fs := e1.Basic("C16", fam, r, nil)
+			if len(fs) > 0 {
+				return fs
+			}
+			if r.Cap != "" {
+				return append(fs, e1.Fail("C16|"+fam+"|no-termination", "PMap over %d elements had not returned after %s", n, r.Cap))
+			}
+			if count != n || sum != n*(n+1)/2 {
+				fs = append(fs, e1.Fail("C16|"+fam+"|result", "PMap over %d elements returned %d elements with sum %d", n, count, sum))
+			}
+			return fs
+		},
+	}
+}
+
 func scenarios(tier string) []*vsched.Scenario {
 	var out []*vsched.Scenario
-	maxLen, b := 3, 2
+	maxLen, b, longN := 3, 2, 3000
 	if tier == "thorough" {
-		maxLen, b = 4, 3
+		maxLen, b, longN = 4, 3, 70000
 	}
-	out = append(out, sharedOptionScenario(false, 2), sharedOptionScenario(true, 2))
+	out = append(out, sharedOptionScenario(false, 2), sharedOptionScenario(true, 2), payloadScenario(false, 0), payloadScenario(true, 0), longListScenario(false, longN), longListScenario(true, longN))
 	for _, pool := range []int{1, 2} {
 		out = append(out, twoCallsScenario(false, pool, 1), twoCallsScenario(true, pool, 1))
 	}
